@@ -230,10 +230,6 @@ struct RefState {
     }
     last[m] = o.vec;
   }
-  string timing() const {
-    for (int n : changesInSec) if (n >= 2) return "same-second";
-    return "distinct-seconds";
-  }
   string str() const {
     string s;
     char b[16];
@@ -362,6 +358,25 @@ static bool runHistory(const Config& c, const Judged& j, World* w, const vector<
   return true;
 }
 
+// Timing class of a mismatch, decided by a differential run: the same history with the clock advanced
+// before every store (every change in a second of its own).  The statement does not depend on time, so
+// the expected verdicts are the same.  If the last query of that spread history agrees with the
+// reference, the mismatch needs two changes within one second ("same-second"), otherwise "any-timing".
+static string timingClass(const Config& c, const Judged& j, const vector<Op>& h) {
+  vector<Op> spread;
+  for (const Op& o : h) {
+    if (o.k == 'S') spread.push_back({'T', 0, 0});
+    spread.push_back(o);
+  }
+  World w;
+  w.build(c);
+  RefState rs(c.msgs.size());
+  Step st;
+  if (!runHistory(c, j, &w, spread, &rs, &st, nullptr)) { fprintf(stderr, "c13: cannot replay spread history\n"); exit(3); }
+  R.transitions += spread.size();
+  return (st.isQuery && (st.mismatchAvail || st.mismatchFind)) ? "any-timing" : "same-second";
+}
+
 static uint64_t g_states = 0;
 
 static void explore(const Config& c, int depth, bool crossCheck) {
@@ -425,12 +440,13 @@ static void explore(const Config& c, int depth, bool crossCheck) {
           R.tracesValidated++;
           string cs = base + ";ops=" + opsStr(h);
           char b[200];
+          string tc = (st.mismatchAvail || st.mismatchFind) ? timingClass(c, j, h) : string();
           if (st.mismatchAvail) {
             snprintf(b, sizeof(b), "isAvailable()=%d but the most recently stored value makes the guard %s", st.obs.avail, st.exp.avail ? "true" : "false");
-            R.violation(sigOf(c, "avail-mismatch", c.parts[0], rs.timing()), string(b) + " after " + opsStr(h) + ": " + c.desc, cs);
+            R.violation(sigOf(c, "avail-mismatch", c.parts[0], tc), string(b) + " after " + opsStr(h) + ": " + c.desc, cs);
           } else if (st.mismatchFind) {
             snprintf(b, sizeof(b), "find(name)=%d find(telegram)=%d expected %d (0 none,1 g,2 alternative)", st.obs.byName, st.obs.byKey, st.exp.find);
-            R.violation(sigOf(c, "find-mismatch", c.parts[0], rs.timing()), string(b) + " after " + opsStr(h) + ": " + c.desc, cs);
+            R.violation(sigOf(c, "find-mismatch", c.parts[0], tc), string(b) + " after " + opsStr(h) + ": " + c.desc, cs);
           }
         }
         char ob[32];
@@ -576,15 +592,21 @@ static int replay(const string& cs) {
   if (!j.explorable) { printf("OK (not resolvable, as expected)\n"); return 0; }
   RefState rs(c.msgs.size());
   bool bad = false;
+  string tc;
   log.clear();
   for (size_t i = 0; i < ops.size(); i++) {
     vector<Op> one(1, ops[i]);
     Step st;
     if (!runHistory(c, j, &w, one, &rs, &st, &log)) { printf("%shistory cannot be replayed\n", log.c_str()); return 2; }
-    if (st.isQuery && (st.mismatchAvail || st.mismatchFind)) bad = true;
+    if (st.isQuery && (st.mismatchAvail || st.mismatchFind)) {
+      bad = true;
+      time_t keep = g_now;
+      tc = timingClass(c, j, vector<Op>(ops.begin(), ops.begin() + static_cast<long>(i) + 1));
+      g_now = keep;
+    }
   }
   printf("%s", log.c_str());
-  printf("timing class of the history: %s\n", rs.timing().c_str());
+  if (bad) printf("timing class of the last mismatch: %s (%s)\n", tc.c_str(), tc == "same-second" ? "it disappears when every store happens in a second of its own" : "it persists when every store happens in a second of its own");
   printf(bad ? "VIOLATES\n" : "OK\n");
   return bad ? 1 : 0;
 }
